@@ -149,3 +149,16 @@ package ctutil
 //@ ensures [verifier-of-this-logs-key-and-the-given-client] result1 == nil ==> result0.Verifier == nv.res0 && result0.Client == lc && result0.PublicKey == log.Key && result0.Description == log.Description
 //@ at pk assert [parses-the-log-list-key] pk.derBytes == log.Key
 //@ at nv assert [verifier-for-the-parsed-key] nv.pk == pk.res0
+
+// The public constructor: the client talks to the log's URL over https (the scheme is added when the
+// list entry has none), is given the log's key so that it verifies what it returns (C12), and the
+// LogInfo is then built from the same list entry.
+//@ func NewLogInfo
+//@ props C05 C12
+//@ site client.New#1 as cn
+//@ site newLogInfo#1 as nl
+//@ requires log != nil
+//@ ensures [no-client-no-info] cn.res1 != nil ==> result0 == nil && result1 != nil && !nl.called
+//@ ensures [otherwise-the-info-built-from-this-entry] cn.res1 == nil ==> nl.called && result0 == nl.res0 && result1 == nl.res1
+//@ at cn assert [a-client-that-holds-the-logs-key] cn.hc == hc && cn.opts.PublicKeyDER == log.Key
+//@ at nl assert [from-the-same-list-entry-with-that-client] nl.log == log && typeof(nl.lc) == *client.LogClient && as(nl.lc, *client.LogClient) == cn.res0
